@@ -45,6 +45,20 @@ Theorem C14_same_as_standalone : forall d now nowms args id hint,
 Proof. exact cluster_exec_standalone. Qed.
 Print Assumptions C14_same_as_standalone.
 
+(* The same for the whole log: if the payload applied at index i is the encoding of the i-th
+   proposal -- premise [delivered = map encode props]: the bytes handed to raft.Node.Propose are
+   immutable until the entry is applied (Raft keeps the slice, it does not copy) and are delivered in
+   order (C15/C16) -- then the entry applied at index i decodes to exactly the arguments and id
+   proposed for it.  The premise is exercised on every run with several proposals pending on one
+   node (hook VerifClusterLoopbackMulti, concurrent clients on a real node). *)
+Theorem C14_log_carries_unaltered : forall (props : list (list bytes * bytes)) (delivered : list bytes),
+    Forall (fun p => id_plain (snd p) = true) props ->
+    delivered = map (fun p => encode_proposal (fst p) (snd p)) props ->
+    forall i p, nth_error props i = Some p ->
+                option_map decode_proposal (nth_error delivered i) = Some (Some p).
+Proof. exact log_carries_unaltered. Qed.
+Print Assumptions C14_log_carries_unaltered.
+
 (* What the filter refuses is exactly PUBLISH and SUBSCRIBE (in any letter case) -- the
    documented restriction "does not support pub/sub in cluster mode yet" -- and what it lets
    through it hands on unchanged. *)
